@@ -984,5 +984,5 @@ func staleRegion(c histCase) bool {
 }
 
 func addHistory(r *evid.Run) {
-	evid.Add(r, evid.Prop[histCase]{Name: "history", Quick: 2500, Thorough: 15000, Gen: genHistory, Pred: predHistory})
+	evid.Add(r, evid.Prop[histCase]{Name: "history", Quick: 2000, Thorough: 15000, Gen: genHistory, Pred: predHistory})
 }
